@@ -38,11 +38,14 @@ VerifyCases == { [cls |-> "verify", in |-> [kind |-> "verify", size |-> s, threa
                  : s \in {Window - 5, Window, 2 * Window + 100, 3 * Window}, t \in {1, 3}, m \in {"stream", "parallel"}, a \in Attacks, k \in {0, 1, 99} }
 KeepVerify(c) == (c.in.mode = "stream" => c.in.threads = 1) /\ (c.in.attack = "none" => c.in.at = 0)
                  /\ (c.in.at = 1 => c.in.size > Window)
+\* control events on the e-th CDN request (sub-requests of one part count separately): the CDN asks for a re-upload,
+\* the file token is refused and master issues a new redirect, or it is refused and master serves the file itself
+Events == {"none"} \cup { ev \o n : ev \in {"reupload@", "token_invalid@", "token_invalid_direct@"}, n \in {"1", "2", "3"} }
 CdnCases == { [cls |-> "cdn", in |-> [kind |-> "cdn", size |-> s, part |-> p, threads |-> t, attack |-> a, at |-> k, event |-> e],
                expect_any |-> IF a = "none" THEN <<[err |-> FALSE, equal |-> TRUE, length |-> s]>> ELSE Guarded(s)]
               : s \in {Window - 5, 2 * Window, 2 * Window + 4 * KiB + 7, 3 * Window + 100},
                 p \in {64 * KiB, 96 * KiB, 128 * KiB, 512 * KiB}, t \in {1, 3}, a \in Attacks, k \in {0, 1, 99},
-                e \in {"none", "reupload", "token_invalid"} }
+                e \in Events }
 KeepCdn(c) == /\ (c.in.attack = "none" => c.in.at = 0) /\ (c.in.attack # "none" => c.in.event = "none")
               /\ (c.in.event # "none" => c.in.threads = 1)
               /\ (c.in.threads = 3 => c.in.part \in {96 * KiB, 128 * KiB} /\ c.in.attack \in {"none", "flip_last", "extend", "extend_full"})
